@@ -56,9 +56,6 @@ theorem chainFrom_weaken (r r' : Int) (l : List (Int × Int)) (hr : r < 1) (h : 
     simp only [ChainFrom] at h ⊢
     exact ⟨fun hh => by omega, h.2⟩
 
-/-- the sequence the specification currently regards as the last delivered one. -/
-def eff (s : Spec) : Int := match s.pending with | some b => b | none => s.p
-
 /-- **What acceptance means.** In every accepted event trace the acknowledged payload ranges are
 chained from the current resume point. -/
 theorem accepted_contiguous (c : Cfg) (evs : List Ev) (s s' : Spec) (h : acceptAll c s evs = some s') :
